@@ -37,6 +37,11 @@ Proof.
     exists sh. split; [reflexivity|]. now apply negb_false_iff in H.
 Qed.
 
+(* Qual is a function of broadcast data: two parties that saw the same commitments, complaints and answers reach the same verdict *)
+Theorem rvss_qual_common G t d1 d2 : d_cm d1 = d_cm d2 -> d_ncompl d1 = d_ncompl d2 -> d_answers d1 = d_answers d2 ->
+  dealer_qualified G t d1 = dealer_qualified G t d2.
+Proof. unfold dealer_qualified. now intros -> -> ->. Qed.
+
 (* ---- Flip / Reconstruct ----------------------------------------------------------------------------------------------- *)
 Section FlipN.
   Variable G : group.
@@ -117,6 +122,15 @@ Section FlipN.
       apply (flipN_no_complaint_iff G (m_open mb) V a b Ea Eb) in FC. destruct FC as (Ra & Rb & O).
       unfold recv_values. rewrite Ea, Eb. destruct (Z.geb_spec (Z.abs a) (gq G)); [lia|]. cbn [fst].
       destruct C as (_ & _ & Hop). now apply (Hop a b).
+  Qed.
+
+  (* the chain from Share to Flip: the share a party holds after the resolution phase lies on the dealer's committed polynomial *)
+  Theorem own_share_committed i d mb f : m_cm mb = d_cm d -> committed mb f -> 0 <= i ->
+    dealer_qualified G t d = true -> my_complaint G i d = false \/ answered i d = true ->
+    exists sh, final_share G i d = Some sh /\ fst sh mod q = poly_eval q f (i + 1).
+  Proof.
+    intros Ecm (_ & Hbind & _) Hi Q A. destruct (final_share_matches G t i d Q A) as (sh & E & M).
+    exists sh. split; [exact E|]. apply Hbind; [lia|]. now rewrite Ecm.
   Qed.
 
   (* MAIN THEOREM: the coin a party computes from its view is the sum of the committed shares of the members of Qual *)
